@@ -588,3 +588,16 @@ def rule_nameiter(ctx, sig, body, arg):
         j += 1
     ctx.note('R-nameiter', 'for .. in', f'for .. in {name}:')
     return sig, body[:ct[j].end] + f' {name}:' + body[ct[j].end:]
+
+
+def rule_nocallback(ctx, sig, body, arg):
+    """R-callback (call sites of the public wrappers): the argument `&mut dont_track_progress` (the no-op observer) is dropped,
+    matching the removal of the `progress_callback` parameter from the callee."""
+    pat = re.compile(r',\s*&mut\s+dont_track_progress\s*,?(\s*\))')
+    ms = list(pat.finditer(body))
+    if not ms:
+        raise RuleError('`&mut dont_track_progress` argument not found')
+    for m in reversed(ms):
+        ctx.note('R-callback', m.group(0), m.group(1))
+        body = body[:m.start()] + m.group(1) + body[m.end():]
+    return sig, body
